@@ -110,6 +110,9 @@ def use_repo():
     import logging
 
     logging.disable(logging.CRITICAL)
+    import warnings
+
+    warnings.simplefilter("ignore")
     import okdmr.dmrlib as d
 
     got = os.path.realpath(list(d.__path__)[0])
